@@ -42,6 +42,14 @@ PROPS = {
                ('codec_mut', r'(push_null|with_capacity)')],
         kani=[],
     ),
+    'C05': dict(
+        units=[('startend', r'(game_start|game_end|player|if_more|C05)')],
+        kani=['k_player_bytes_8_4'],
+    ),
+    'C19': dict(
+        units=[('startend', r'(try_from|lemma_nul_len|C19|^player$)')],
+        kani=['c19_fix_char'],
+    ),
     'C06': dict(
         units=[('event', r'(__total|port_index|C06)'), ('reader', r'(^read$|^parse_|expect_bytes|port_occupancy|from__partial_game|C06)')],
         kani=[],
